@@ -74,6 +74,8 @@ type listStep struct {
 	stmts   []string // statements to execute
 	result  string   // expected R payload ("" none)
 	result2 string   // a second R line
+	alt     string   // twin runs: the statements of the second run's last operation
+	twin    bool     // the last operation is executed in two runs whose endings are compared
 	q       bool     // a Q line follows (contains): R must equal the OR of the Q values
 	fatal   bool     // the operation must end the run with a runtime error
 }
@@ -262,6 +264,14 @@ func (m *listModel) step(op *LOp) (listStep, error) {
 		sorted = append(sorted, HV{K: 's', Str: "pushed"})
 		sorted[0] = HV{K: 's', Str: "changed"}
 		return listStep{stmts: []string{"kept = " + H + ".sort()", "kept.push(\"pushed\")", "kept[0] = \"changed\"", R("kept")}, result: "[" + canonList(sorted) + "]"}, nil
+	case "contains-mixed":
+		// an array that also holds containers: contains must end exactly as the
+		// walk `for each element in order: element == v` ends (a value or an error)
+		if _, ok := parseLit(op.Lit); !ok {
+			return listStep{}, errUnsupported{"literal"}
+		}
+		walk := fmt.Sprintf("cw = false\nfor (ci = 0; ci < %d; ci++) { if (%s[ci] == %s) { cw = true\n break } }\nprint \"R\", [cw]", n, H, op.Lit)
+		return listStep{stmts: []string{R(H + ".contains(" + op.Lit + ")")}, alt: walk, fatal: true, twin: true}, nil
 	case "before-start":
 		k := n + 1 + op.Idx
 		if op.Idx < 0 {
@@ -416,6 +426,7 @@ func runListCase(c *ListCase, keep bool) Outcome {
 	want = append(want, exp{tag: "S", vals: m.dump(), op: -1})
 	kinds := map[string]bool{}
 	fatalAt := -1
+	twinAlt := ""
 	for i := range c.Ops {
 		st, err := m.step(&c.Ops[i])
 		if err != nil {
@@ -430,6 +441,9 @@ func runListCase(c *ListCase, keep bool) Outcome {
 		kinds[k] = true
 		for _, s := range st.stmts {
 			sb.WriteString(s + "\n")
+		}
+		if st.twin {
+			twinAlt = st.alt
 		}
 		if st.fatal {
 			fatalAt = i
@@ -542,6 +556,60 @@ func runListCase(c *ListCase, keep bool) Outcome {
 				return finish()
 			}
 		}
+	}
+	if fatalAt >= 0 && twinAlt != "" {
+		// second run: the same history with the == walk in place of contains
+		o.Probes["contains_mixed"]++
+		lastStmts := ""
+		{
+			mm, _ := c.initModel()
+			var last listStep
+			for k := 0; k <= fatalAt; k++ {
+				last, _ = mm.step(&c.Ops[k])
+			}
+			lastStmts = strings.Join(last.stmts, "\n")
+		}
+		prog2 := strings.Replace(prog, lastStmts+"\nprint \"DONE\"", twinAlt+"\nprint \"DONE\"", 1)
+		if prog2 == prog {
+			o.Class, o.Msg = "harness", "twin program could not be built"
+			return finish()
+		}
+		var out2 bytes.Buffer
+		kind2, msg2 := "", ""
+		func() {
+			defer func() {
+				if r := recover(); r != nil {
+					kind2, msg2 = "panic", fmt.Sprint(r)
+				}
+			}()
+			lang.VerifResetProcessState()
+			_, err := lang.EvalProgram(prog2, []lang.InputFile{{Name: "doc.json", Reader: strings.NewReader(c.doc())}}, nil, &out2, false)
+			kind2, msg2 = classifyErr(err)
+		}()
+		tail := func(s string) string {
+			ls := strings.Split(strings.TrimSuffix(s, "\n"), "\n")
+			for i := len(ls) - 1; i >= 0; i-- {
+				if strings.HasPrefix(ls[i], "R ") {
+					return ls[i]
+				}
+				if strings.HasPrefix(ls[i], "S ") {
+					break
+				}
+			}
+			return "<none>"
+		}
+		r1, r2 := "<none>", "<none>"
+		if kind == "success" {
+			r1 = tail(out.String())
+		}
+		if kind2 == "success" {
+			r2 = tail(out2.String())
+		}
+		if kind != kind2 || r1 != r2 {
+			o.Class = "contains-disagrees-with-eq"
+			o.Msg = fmt.Sprintf("operation #%d `%s`: contains ended with %s %s %q, the element-by-element == walk with %s %s %q", fatalAt, opText(fatalAt), kind, r1, msg, kind2, r2, msg2)
+		}
+		return finish()
 	}
 	if fatalAt >= 0 {
 		o.Probes["index_before_start"]++
@@ -683,8 +751,23 @@ func genListCase(t *Tape, maxOps int, bulk bool) *ListCase {
 		m.step(&op)
 		c.Ops = append(c.Ops, op)
 	}
-	if t.Chance(1, 6) {
+	switch t.Weighted(8, 2, 3) {
+	case 1:
 		c.Ops = append(c.Ops, LOp{Arr: t.Draw(3), Kind: "before-start", Idx: t.Draw(3)})
+	case 2:
+		// make sure containers and scalars are mixed: push a few of each first
+		a := t.Draw(3)
+		for k := t.Draw(4); k > 0; k-- {
+			lit := listScalarLits[t.Draw(len(listScalarLits))]
+			if t.Chance(1, 3) {
+				lit = listContainerLits[t.Draw(len(listContainerLits))]
+			}
+			op := LOp{Arr: a, Kind: "push", Lit: lit}
+			if _, err := m.step(&op); err == nil {
+				c.Ops = append(c.Ops, op)
+			}
+		}
+		c.Ops = append(c.Ops, LOp{Arr: a, Kind: "contains-mixed", Lit: listScalarLits[t.Draw(len(listScalarLits))]})
 	}
 	return c
 }
